@@ -55,6 +55,7 @@ PROPS = {
         "units": [
             U("c05", "TestBalloonDense", T(40, 8, 300), T(600, 16, 2400)),
             U("c05", "TestNodeDense", T(3, 16, 300, shrinktime="60s"), T(40, 16, 2400, shrinktime="180s"), needs=["nodeexec"]),
+            U("c05", "TestClusterDense", T(1, 8, 400, shrinktime="60s"), T(20, 16, 3000, shrinktime="180s"), needs=["nodeexec"]),
         ],
     },
     "C06": {
@@ -66,7 +67,8 @@ PROPS = {
     "C09": {
         "level": "exploration",
         "units": [
-            U("c09", "TestStateTransfer", T(2, 16, 400, shrinktime="60s"), T(30, 16, 3000, shrinktime="240s"), needs=["nodeexec"]),
+            U("c09", "TestStateTransfer", T(2, 12, 400, shrinktime="60s"), T(30, 16, 3000, shrinktime="240s"), needs=["nodeexec"]),
+            U("c09", "TestFetchSnapshotGapRule", T(4, 8, 400, shrinktime="60s"), T(60, 16, 3000, shrinktime="180s"), needs=["nodeexec"]),
         ],
     },
     "C07": {
